@@ -33,6 +33,10 @@ CLAIMED = {
     "C07": ("control-dependence / value-flow of the candidate-source decision on the query matcher",
             "ONE clause only (candidate completeness): the choice of the postings-driven candidate source must consult the query "
             "matcher; today it does not (recorded known finding). Matching semantics themselves are runtime and not decided", "5/C07"),
+    "C08": ("comparator who-may-call, operator-table agreement over sibling range sites, guard on the nested-object recursion",
+            "THREE clauses only: keyword comparisons go through the one case-insensitive comparator; every comparison with a range "
+            "bound is >= min / <= max at all sibling sites; the nested recursion binds the iterated object and skips objects of another "
+            "parent. Which documents pass a filter tree is runtime and not decided", "5/C08"),
     "C09": ("ADT-table check of the score algebra, value-flow of tie breakers to their validator, control-dependence of the pruning threshold on the hook parameters",
             "score expression type has only sub-additive nodes with validated tie breakers; the pruning threshold is finite only when "
             "neither a collector nor a score-adjust hook is attached; collection is not gated by the heap (bound soundness itself, "
@@ -89,7 +93,6 @@ CLAIMED = {
 }
 
 NA = {
-    "C08": "nested-object binding semantics depend on per-document object indices computed at run time; no structural necessary condition beyond the column-table agreement checked under C17",
     "C10": "ordering and BM25 values are numerical results over runtime data; no sound static argument in reach",
     "C18": "group representatives and inner-hit windows are ordering properties of runtime hit lists",
     "C19": "'only the first window_size hits change' is an index-range property of runtime vectors",
